@@ -1,5 +1,6 @@
 import Pocket.Lemmas.StoreRead
 import Pocket.Lemmas.Layout
+import Pocket.Lemmas.EventMap
 /-
 C04 — stored events read back byte-identical, forever.
 `Inv` (Lemmas/StoreInv) holds in every state reachable from the empty store by any history
@@ -88,6 +89,23 @@ theorem delineate_length_any_total (e : EventRec) (hs : EventSized e) (total : N
   rw [if_neg (by omega), hrd]
   simp only []
   rw [if_neg (by omega), hlen]
+
+/-- **the map file never shrinks and an append never fails** (the grow-and-retry loop, with `set_len`
+modelled as setting the length exactly — truncating when smaller): on a consistent map `store_event`
+returns the 8-aligned old end, advances the end by exactly the event's size, needs no more growth
+rounds than `size / CHUNK + 1`, and the file is at least as long as before; the alignment padding never
+runs out of space -/
+theorem map_store (chunk : Nat) (hc : chunk % 8 = 0) (hpos : 0 < chunk) (m : EMap) (hi : EMInv m) (size : Nat) :
+    ∃ m', emStore chunk m size = .ok (align8 m.marker, m') ∧ EMInv m' ∧ m'.marker = align8 m.marker + size ∧
+      m.fileLen ≤ m'.fileLen := emStore_ok chunk hc hpos m hi size
+
+/-- reopening finds the same end and the real file length — also when the map is full to its last byte -/
+theorem map_reopen (chunk : Nat) (m : EMap) (hi : EMInv m) :
+    ∃ m', emOpen chunk m.fileLen m.marker = .ok m' ∧ EMInv m' ∧ m'.marker = m.marker ∧ m'.fileLen = m.fileLen :=
+  emOpen_existing chunk m.fileLen m.marker hi.hdr (by rw [← hi.mapFile]; exact hi.inMap) hi.al
+
+/-- the exactly-full map is a state the model reaches and reopens unchanged -/
+example : emOpen 2048 2048 2048 = .ok ⟨2048, 2048, 2048, 2048⟩ := by decide
 
 /-- closing and reopening changes nothing -/
 theorem reopen_reads (s : Store) : step s .reopen = s := rfl
